@@ -470,7 +470,7 @@ pub fn run_c19_c(ctx: &Ctx) -> Outcome {
     let rounds = ctx.vol(24, 600);
     let mut rng = ctx.rng(1919);
     for round in 0..rounds {
-        let burst = rng.usize(1, 6);
+        let burst = rng.usize(2, 6);
         let with_events = rng.bool();
         let seed = rng.u64();
         rt.block_on(async {
@@ -490,6 +490,7 @@ pub fn run_c19_c(ctx: &Ctx) -> Outcome {
             let mut r = Rng::new(seed, 5);
             let mut expected: BTreeSet<uuid::Uuid> = cluster.nodes().iter().map(|n| n.host_id).collect();
             let mut refreshes: Vec<tokio::task::JoinHandle<Result<(), String>>> = Vec::new();
+            let mut removed_any = false;
             for step in 0..burst {
                 // a burst of topology changes: new node(s) joining, announced or not by events.
                 // Some new nodes are slow to accept connections, so the consumer of the hand-off (the
@@ -516,6 +517,27 @@ pub fn run_c19_c(ctx: &Ctx) -> Outcome {
                 if r.bool() {
                     tokio::time::sleep(Duration::from_millis(r.below(40))).await;
                 }
+                // sometimes a node that joined earlier in the burst leaves again (decommission): the latest
+                // topology no longer lists it
+                if step >= 1 && r.chance(1, 3) {
+                    let nodes = cluster.nodes();
+                    if let Some(victim) = nodes.iter().skip(2).find(|n| expected.contains(&n.host_id)) {
+                        expected.remove(&victim.host_id);
+                        let members: Vec<usize> = nodes.iter().filter(|n| expected.contains(&n.host_id)).map(|n| n.idx).collect();
+                        cluster.set_members(members);
+                        cluster.stop_node(victim.idx, CloseHow::Fin);
+                        removed_any = true;
+                        if with_events {
+                            cluster.push_event(&Event::TopologyChange { change: "REMOVED_NODE".into(), addr: std::net::IpAddr::V4(victim.ip), port: MAIN_PORT as i32 });
+                        }
+                        // a further refresh request lands while the earlier fetch may still be pending
+                        let s2 = session.clone();
+                        refreshes.push(tokio::spawn(async move { s2.refresh_metadata().await.map_err(|e| e.to_string()) }));
+                    }
+                }
+            }
+            if removed_any {
+                o.class("c:node-left-during-burst");
             }
             let key = fw::hash64(format!("{burst}:{with_events}:{seed}").as_bytes());
             o.case(key, true);
@@ -561,7 +583,7 @@ pub fn run_c19_c(ctx: &Ctx) -> Outcome {
         });
     }
     o.sample(json!({"part": "c", "rounds": rounds}));
-    for c in ["c:burst-with-events", "c:burst-without-events", "c:state-reflects-latest-topology", "c:concurrent-refresh-answered"] {
+    for c in ["c:burst-with-events", "c:burst-without-events", "c:state-reflects-latest-topology", "c:concurrent-refresh-answered", "c:node-left-during-burst"] {
         o.require_class(c);
     }
     o
